@@ -10,5 +10,6 @@ CONSTANTS
   SpawnUnderLock = TRUE
   MaxCrash = 1
   RecheckAfterWait = FALSE
+  WakeAfterResize = TRUE
 INVARIANT IdsGrow
 PROPERTY ReturnsUsable
